@@ -176,6 +176,33 @@ def t59(a):
     return np.atleast_2d(a)[0, 1]
 def t60(a):
     return np.zeros_like(a) + a[1]
+def t61(M):               # fifth session: swapaxes / concatenate / stack / enumerate / nonzero
+    return np.swapaxes(M, -1, -2)
+def t62(M, N):
+    return np.concatenate((M, N), axis=1)
+def t63(M, N):
+    return np.concatenate((M, N), axis=0)
+def t64(a, b):
+    return np.concatenate((a, b))
+def t65(a):
+    s = 0
+    for k, x in enumerate((a[0], a[1], a[2])):
+        s = s + (k + 1) * x
+    return s
+def t66(M):
+    r, c = np.nonzero(M - np.diag(np.diag(M)) - M + np.eye(3))
+    return np.array(r) * 10 + np.array(c)
+def t67(a):
+    shape = (2,)
+    z = np.zeros((3, *shape))
+    z[0] = a[:2]
+    return z
+def t68(a, *rest):
+    return a + rest[0] * 2 - rest[1]
+def t69(M):
+    return M[(slice(None), *np.ix_([0, 2], [1, 2]))[1:]]
+def t70(a, b):
+    return np.maximum(a, 3) - np.minimum(b, 0)
 '''
 
 STACKED = r'''
@@ -282,7 +309,9 @@ def main():
         bad = unsup = ok = 0
         for name in sorted(k for k in ns if k.startswith('t') and k[1:].isdigit()):
             f = repo.function('snip.' + name)
-            params = f.params
+            params = list(f.params)
+            if name == 't68':
+                params = ['a', 'b', 'v']
             want = ns[name](*[ARGS[p].astype(float).copy() for p in params])
             A = Alg()
             ev = SymEval(repo, A)
